@@ -11,8 +11,8 @@ use serde_json::{json, Value};
 pub struct P;
 pub static C08: P = P;
 
-const NPLACES: usize = 8;
-const NCONTENTS: usize = 9;
+const NPLACES: usize = 9;
+const NCONTENTS: usize = 10;
 const HREFS: [&str; 4] = ["/1", "/2", "/1", "/3"];
 
 fn place(pi: usize, l: N) -> N {
@@ -24,6 +24,8 @@ fn place(pi: usize, l: N) -> N {
         4 => e("table", vec![e("tr", vec![e("td", vec![l]), e("td", vec![t("v")])])]),
         5 => e("table", vec![e("tr", vec![e("td", vec![t("u")]), e("td", vec![e("table", vec![e("tr", vec![e("td", vec![l])])])])])]),
         6 => e("dl", vec![e("dt", vec![l]), e("dd", vec![t("w")])]),
+        // a note anchor: the link is the only child of a <sup>
+        8 => e("p", vec![t("x"), e("sup", vec![l]), t(" y")]),
         _ => e("pre", vec![l]),
     }
 }
@@ -39,6 +41,8 @@ fn content(ci: usize, c: char) -> Vec<N> {
         6 => vec![t(&format!("{c}{c}{c} {c}{c}{c}"))],
         // a line break only: no content
         8 => vec![e("br", vec![])],
+        // digits only (a <sup> holding nothing but digits is rendered with superscript digits)
+        9 => vec![t("7")],
         _ => vec![t(&format!("{c} ")), e("em", vec![t(&format!("{c}{c}"))]), t(&format!(" {c}{c}{c}{c}"))],
     }
 }
@@ -148,6 +152,11 @@ pub fn check(html: &str, w: usize, cfg: &Cfg, cx: &mut Cx) {
     check_parsed(html, &links(&d), d.has_elem("table"), w, cfg, cx)
 }
 fn check_parsed(html: &str, ls: &[Link], has_table: bool, w: usize, cfg: &Cfg, cx: &mut Cx) {
+    // a link whose text is only digits is written "[7]" by the plain and rich decorators, which cannot
+    // be told from a reference: such documents are decided under the trivial decorator only
+    if html.contains(">7</a>") && !matches!(cfg.dec, crate::run::Dec::Trivial) {
+        return;
+    }
     let r = cx.render(html.as_bytes(), w, cfg);
     cx.state(1);
     let s = match &r {
